@@ -39,8 +39,8 @@ CLAIMED["C18"] = ("Partial deductive proof: every typed xsync.Map wrapper equals
 CLAIMED["C19"] = ("Deductive proof of functional contracts of the pure helpers with loop invariants, pure callbacks as uninterpreted functions, ghost permutations and maps as (domain, value) functions: xslices All/Any/Chunk/Clear/Clone/Compact(Func)/CompactInPlace(Func)/Count(Func)/Equal(Func)/Fill/Filter(InPlace)/Group/Grow/Index(Func)/Insert/Join/LastIndex(Func)/Map/Partition/Reduce/Remove/RemoveUnordered/Repeat/Reverse/Runs/Shrink/Unique(InPlace), xsort order algebra, Search, Merge/mergeIterator.Next (heap representation: one entry per live input carrying the item last pulled from it, sources pairwise distinct and in range, Next returns the heap's least entry and ends exactly when the heap is empty - not: permutation/sortedness of the merged output), xmath Abs (per integer width, exact wrap)/Min/Max/Clamp, xmaps ToIndex/FromKeysAndValues/Set/SetFromSlice/Difference/Union/Intersection/Intersects/Reverse/ReverseSingle, xrand Shuffle/RShuffle (permutation), Sample/RSample (min(k, n) pairwise distinct positions below n) and the slice/iterator/stream samplers (no panic, documented result length), all on a trusted contract of sampler.Next; xerrors.WithStack (nil-preserving, returns err itself when its chain already has a stack, otherwise wraps it - relative to an assumed contract of errors.Is).",
          "Trusted: gvc, SMT solvers, assumed contracts of package slices/sort. Assumed: orders are strict weak orders, callbacks pure, NaN not modelled. xsort.Slice carries a TRUSTED contract (a permutation of its argument, sorted) used by xmaps.Intersection/Intersects; xerrors.WithStack, xsort.MergeSlices and the sort wrappers Slice/SliceStable/SliceIsSorted are exercised only by bounded stand-ins (in-package tests, exhaustive over small inputs, injected with go test -overlay; labelled bounded, never counted as proved; the WithStack one found and now guards a repaired idempotence defect). Not under contract (listed in evidence): xsort.MergeSlices; uniformity of sampling is probabilistic and not decidable here. A failed obligation of a free function is replayed on the real code (generated test evaluating the contract on candidate inputs, seeded with the solver's model); where that finds an input the VIOLATION line carries it, otherwise it ends in no-failing-input-found.",
          "4.13", CLAIMED["C06"][3])
-CLAIMED["C20"] = ("Partial deductive proof: SleepContext's decision logic (nil at once iff d <= 0; DeadlineTooSoonError with the right fields iff a deadline closer than d, before any timer exists; otherwise nil only through the arm of a timer created with exactly d, ctx.Err() only through the Done arm); JitterTicker argument validation (panics iff d <= 0 or jitter >= d), no panic for 0 <= jitter < d, every scheduled delay within [d-jitter, d+jitter], Stop and Reset advance the generation that pending callbacks compare against.",
-         "Trusted: gvc, assumed contracts of time.NewTimer/AfterFunc/Until, context, math/rand, sync.Mutex; wall-clock behaviour of timers. Not covered: the callback body's generation check is argued on paper from Stop's proved postcondition; Stop/Reset racing a firing timer; tick spacing as observed on the channel.",
+CLAIMED["C20"] = ("Partial deductive proof: SleepContext's decision logic (nil at once iff d <= 0; DeadlineTooSoonError with the right fields iff a deadline closer than d, before any timer exists; otherwise nil only through the arm of a timer created with exactly d, ctx.Err() only through the Done arm); JitterTicker argument validation (panics iff d <= 0 or jitter >= d), no panic for 0 <= jitter < d, every scheduled delay within [d-jitter, d+jitter], Stop and Reset advance the generation that pending callbacks compare against; the callback handed to time.AfterFunc is verified as a function literal of its own, from an arbitrary later state of the ticker: it sends a tick only while the ticker's generation equals the one it captured, re-arms exactly once in that case, and otherwise touches neither the channel nor the ticker - with Stop's postcondition this gives 'no tick after Stop' for every callback that takes the mutex after Stop.",
+         "Trusted: gvc, assumed contracts of time.NewTimer/AfterFunc/Until, context, math/rand, sync.Mutex; wall-clock behaviour of timers. Not covered: that the mutex serialises Stop/Reset and a firing callback (sync.Mutex assumed), that the runtime runs the callback after the requested delay, tick spacing as observed on the channel.",
          "4.14", CLAIMED["C06"][3])
 
 CLAIMED["C03"] = ("Partial deductive proof of the structural part: a ghost node set, ghost heights and ghost child indices carry the invariant `structOK` (every non-root node holds 7..15 keys, the root 0..15; all leaves at ghost height 0 and every child one level below its parent, i.e. balanced; parent/child links mutually consistent; slots at and beyond n hold zero values / nil children); newBtree establishes it and Put (insertIntoLeaf, overfill with its five loops, amalgam view) and Delete (removeRightmost, steal, rotateLeft/Right, merge/mergeTwo cascade, root collapse) re-establish it for every tree and key, by inductive loop invariants and mutually recursive contracts; searchNode makes at most n <= 15 comparisons and Get/Contains call it once per level (ghost counters).",
